@@ -5,6 +5,18 @@ import json, subprocess
 HOOK_COMMITS = subprocess.run(["git","-C","/repo","log","--format=%H %s","--grep=^verif hook"],capture_output=True,text=True).stdout.strip().splitlines()
 
 CHECKS = {
+ "C04": ("exploration","3/C04",
+   "1-64 concurrent callers and batch_json calls on clones of one real client against a scripted server on the simulated network that answers in seeded (permuted) order and injects unknown-id and duplicated response frames; every scheduling point of register/write/receive/match/deliver is a seeded kernel decision, socket I/O is chunked, delayed and interrupted (short reads/writes, EINTR). Each call must return its own token, batches stay positionally aligned, request ids on a connection are distinct, nothing stays pending.",
+   "simulated socket semantics (DESIGN.md 2.2); scripted peer written with the harness's independent codec.",
+   "deterministic simulation: seeded schedules + scripted adversarial peer, per-call token oracle"),
+ "C05": ("fault_enumeration","3/C05",
+   "Up to 32 concurrent writers per connection with payloads straddling the drawn socket capacity and BufWriter size, peer stalls (bounded and permanent), configured write timeouts, short writes and EINTR; the wire tap of everything the endpoint wrote must be complete frames with self-describing bodies, optionally followed by a prefix of one frame and then nothing.",
+   "wire-tap oracle uses patterned bodies (a body byte is a function of the writer and offset) so foreign bytes inside a frame are recognisable; simulated socket semantics.",
+   "deterministic simulation: fault injection (stall, write timeout, short I/O) + wire-tap stream-shape oracle"),
+ "C06": ("fault_enumeration","3/C06",
+   "0-16 calls in flight (with and without per-call timeouts) while the scripted server closes (FIN), resets, sends each kind of malformed header or cuts a response at each byte-offset class, before/after reading requests; timeouts racing response delivery at deadline-1ms..+50ms on the simulated clock. Every in-flight and later call must return (a hang is a kernel deadlock report), late responses are dropped, unrelated calls get their own reply, no pending entry remains.",
+   "the peer always drains what the client writes (peer stalls belong to C05); simulated socket semantics.",
+   "deterministic simulation: connection-fault enumeration x seeded schedules, deadlock detection on the simulated clock"),
  "C11": ("exploration","5.3/C11",
    "Seeded histories (systematic-size and long random) on the real TransferControl compared step by step with a credit model, plus the documented producer loop run against concurrent ack/advance/resume/cancel threads under seeded schedules; in-flight bound asserted after every send.",
    "simkernel Mutex/Condvar semantics; producer-side offsets < 2^56 and chunk lengths <= 2^48 (the property's bound); model written without repository code.",
@@ -34,8 +46,8 @@ NOT_APPLICABLE = [
 # properties that are planned but whose check is not registered yet are listed as not claimed
 PENDING = {
  "C01":"check under construction in this session (wire tap + emission routes)",
- "C02":"check under construction", "C03":"check under construction","C04":"check under construction",
- "C05":"check under construction","C06":"check under construction","C09":"check under construction",
+ "C02":"check under construction", "C03":"check under construction",
+"C09":"check under construction",
  "C10":"check under construction","C14":"check under construction","C15":"check under construction",
  "C16":"check under construction","C17":"check under construction","C18":"check under construction",
  "C19":"check under construction",
